@@ -269,7 +269,7 @@ pub fn run(ctx: &Ctx) -> Outcome {
         }
         co
     });
-    run_cases(ctx, &mut out, SubSpec { name: "fill_flattened_vs_original", cases: ctx.n(6_000, 400_000), exhaustive: false, max_secs: if ctx.quick() { 30. } else { 600. } }, |i, want, st| {
+    run_cases(ctx, &mut out, SubSpec { name: "fill_flattened_vs_original", cases: ctx.n(15_000, 400_000), exhaustive: false, max_secs: if ctx.quick() { 30. } else { 600. } }, |i, want, st| {
         let mut rng = ctx.rng("fill_flattened_vs_original", i);
         let w = rng.int(8, 40) as i32;
         let h = rng.int(8, 40) as i32;
